@@ -36,7 +36,7 @@ Init == /\ done = FALSE
         /\ IF Part = "A" THEN lib \in {<<Ent("article", "k", fs, TRUE)>> : fs \in FieldSeqs} /\ fmt \in FmtsA
            ELSE lib \in {Reindex(l) : l \in Libs(MaxBlocks)} /\ fmt \in FmtsB
 Next == /\ ~done /\ done' = TRUE /\ UNCHANGED <<lib, fmt>>
-        /\ PrintT(ToJson([lib |-> lib, fmt |-> fmt, out |-> Write(lib, fmt)]))
+        /\ PrintT(ToJson([lib |-> lib, fmt |-> fmt, out |-> Write(lib, fmt), fixed |-> Fixed(lib, fmt), col |-> Column(lib, fmt)]))
 InvColumn == ColumnLaw(lib, fmt)
 InvAuto   == AutoAligned(lib, fmt)
 =============================================================================
